@@ -1,7 +1,12 @@
 package props
 
 import (
+	"encoding/json"
+	"os"
+	"path/filepath"
 	"testing"
+
+	"verif/pipeline"
 )
 
 func TestC01(t *testing.T) { Check(t, "C01") }
@@ -24,3 +29,34 @@ func TestC06(t *testing.T) { Check(t, "C06") }
 func TestC11(t *testing.T) { Check(t, "C11") }
 func TestC13(t *testing.T) { Check(t, "C13") }
 func TestC17(t *testing.T) { Check(t, "C17") }
+
+// TestFuzzC06 is the engine-F step of a thorough C06 run (started by the driver after the rapid shards).
+func TestFuzzC06(t *testing.T) {
+	if os.Getenv("VERIF_FUZZ") == "" {
+		t.Skip()
+	}
+	r := getRecorder(t, "C06")
+	defer r.flush(t)
+	defer pipeline.CleanupCases()
+	if r.s.Infra != "" {
+		t.Skipf("infrastructure: %s", r.s.Infra)
+	}
+	msg, rp, err := FuzzCampaign(r.tools, r, "C06")
+	if err != nil {
+		// a campaign that cannot run is a note in the evidence, never a verdict
+		r.Class("fuzz_campaign_inconclusive")
+		t.Logf("fuzz campaign inconclusive: %v", err)
+		return
+	}
+	if msg != "" {
+		dir := replayDir()
+		_ = os.MkdirAll(dir, 0o755)
+		name := filepath.Join(dir, "C06-fuzz.json")
+		b, _ := json.MarshalIndent(rp, "", " ")
+		_ = os.WriteFile(name, b, 0o644)
+		r.mu.Lock()
+		r.s.Violation, r.s.Replay = msg, name
+		r.mu.Unlock()
+		t.Fatalf("%s", msg)
+	}
+}
